@@ -133,14 +133,23 @@ def scanning_loop(ck):
                 we = n.targets[0].id
     env = {we: T.p_add(V(ws), V(resolution))} if we else {}
     skip = adv = None
+    skip_negated = False
     for n in ast.walk(loop):
         if isinstance(n, ast.If) and len(n.body) == 1 and isinstance(n.body[0], ast.Continue):
             skip = n
         if isinstance(n, ast.While):
             adv = n
+    if skip is None and adv is not None:
+        # the guard form (`if position < start: continue` is read as `if not position < start: <rest>` by sa/desugar.py, and
+        # may be written that way): the `if` without else that encloses the window-advance loop
+        for n in loop.body:
+            if isinstance(n, ast.If) and not n.orelse and any(x is adv for x in ast.walk(n)):
+                skip, skip_negated = n, True
     if skip is None or adv is None:
         raise AnalysisError(f"{w}: skip test / window-advance loop not found in the scanning loop")
     st = norm_in(ctx, fn, skip.test, True, env=env)
+    if skip_negated:
+        st = T.mk_not(st)
     want_skip = T.mk_lt(V(pos), V(ws))
     ck.judge(st == want_skip, "C16.4", "vectorisePositions:skip-test", where(fn, skip),
              "a label is skipped iff it lies strictly before the window start (a label exactly on it belongs to the bin)",
